@@ -6,6 +6,7 @@
         -> "ok <fat bits> <digest>" | "err <Variant>" | "panic" | "outoffuel"
    "img <fill> <off> <hex> <off> <hex> ..."     current := exactly these pages over <fill> (re-synchronise on the library's
         device, e.g. after an operation this model does not cover) -> "ok <digest>"
+   "imgq <fill> <off> <hex> ..."                as img, answers just "ok" (no digest: cheaper when every call is re-based)
    "create <name> <y> <m> <d> <h> <mi> <s> <ms>"   vol_create_empty_file_root
         -> "ok <first> <last> | exists | err <Variant> | panic | fuel", then " <digest>"
         create / remove / rename run MOUNTED (Model/VolStatus.v): vol_mount_status ; vols_* (the operation, then set_dirty_flag(true)
@@ -36,12 +37,23 @@
         then " fi=<free|->,<next|-> <digest>"
    "rmdir <name>"                           vol_remove_root (a directory: vol_remove_dir_root; a file: Model/VolRemove.v)
         -> "ok | err <Variant> | ..." then " fi=.. <digest>" | "na"
+   ROOT DIRECTORY OF A FAT32 VOLUME, without growth (Model/Vol32Root.v: the chain that starts at BPB_RootClus, no parent entry):
+   "r32chain"                               root32_chain of the current image -> "ok <c1,c2,..>" | "none" (broken root chain)
+   "r32create <name> <y> <m> <d> <h> <mi> <s> <ms>" / "r32remove <name>" / "r32rename <src> <dst>"   vol32_root_create / _remove /
+        _rename -> as ccreate / cremove / crename ("na": would grow / entry owns clusters / is a directory / broken root chain)
+   "r32grow <name> <y> <m> <d> <h> <mi> <s> <ms>"   create_file in the FAT32 root INCLUDING growth, in its own mount .. unmount bracket,
+        starting from the image of the LAST img / imgq (not from the current image, so it can follow an r32create of the same call):
+        VolFsInfo.vol32_mount (strict) reads the FS-info latch from the image ; Vol32Root.vol32_root_create_grow ;
+        VolFsInfo.vol32_flush_fs_info writes the FS-info sector back when the latch is dirty (what unmount does)
+        -> "ok <first> <last> | exists | err <Variant> | panic | fuel", " chain=<root chain after> fi=<free|->,<next|->,<dirty|clean>", digest
+        | "na" (broken root chain) | "nomount ..."
    "wf"                                     Spec/Wf.wf_issues (folding: Spec/WfFold.wf_fold with the loaded table) of the current
         image: "<count> <free clusters>: <Issue(..)> ..." *)
 open Conv
 
 let cur : Image.image ref = ref (Image.img_empty BinNums.N0)
 let stale = ref false
+let base : Image.image ref = ref (Image.img_empty BinNums.N0)     (* the image of the last img / imgq (r32grow starts from it) *)
 let chain : BinNums.coq_N list ref = ref []
 let fi : Table.fsinfo ref = ref { Table.fi_free = None; Table.fi_next = None; Table.fi_dirty = false }
 let opt_n (s : string) : BinNums.coq_N option = if s = "-" then None else Some (n_of_string s)
@@ -81,15 +93,15 @@ let line (t : string list) : string =
         | Base.Err e -> "err " ^ err_name e
         | Base.Panic -> "panic"
         | Base.OutOfFuel -> "outoffuel"))
-  | "img" :: fill :: pages ->
+  | ("img" | "imgq" as cmd) :: fill :: pages ->
     let im = ref (Image.img_empty (n_of_string fill)) in
     let rec go l =
       match l with
       | off :: hx :: r -> im := Image.img_write !im (n_of_string off) (bytes_of_hex hx); go r
       | _ -> () in
     go pages;
-    cur := !im; stale := false;
-    "ok " ^ digest ()
+    cur := !im; base := !im; stale := false;
+    if cmd = "imgq" then "ok" else "ok " ^ digest ()
   | ["create"; name; y; m; d; h; mi; s; ms] ->
     (* mounted (Model/VolStatus.v): mount ; the operation with its status write ; unmount.  "mark<0|1>": the status byte was written *)
     let g = Abs.parse_geom !cur in
@@ -149,6 +161,41 @@ let line (t : string list) : string =
      | Some (r, im) -> cur := im; pre (res_tag (fun _ -> "ok") r ^ " " ^ digest ()))
   | ["crename"; src; dst] ->
     (match VolChainDir.vol_rename_in_chain upper oem !cur !chain (name_of_hex src) (name_of_hex dst) with
+     | None -> stale := true; "na"
+     | Some (r, im) -> cur := im; pre (res_tag (fun _ -> "ok") r ^ " " ^ digest ()))
+  | ["r32chain"] ->
+    (match Vol32Root.root32_chain !cur with
+     | Some ch -> pre ("ok " ^ String.concat "," (Stdlib.List.map string_of_n ch))
+     | None -> pre "none")
+  | ["r32create"; name; y; m; d; h; mi; s; ms] ->
+    (match Vol32Root.vol32_root_create upper oem !cur (name_of_hex name) (M_c18.mkdt y m d h mi s ms) with
+     | None -> stale := true; "na"
+     | Some (r, im) ->
+       cur := im;
+       pre (res_tag (fun o -> match o with
+                              | None -> "exists"
+                              | Some (p, q) -> Printf.sprintf "ok %s %s" (string_of_n p) (string_of_n q)) r ^ " " ^ digest ()))
+  | ["r32grow"; name; y; m; d; h; mi; s; ms] ->
+    (match VolFsInfo.vol32_mount true !base with
+     | Base.Ok (fi0, _) ->
+       (match Vol32Root.vol32_root_create_grow upper oem !base fi0 (name_of_hex name) (M_c18.mkdt y m d h mi s ms) with
+        | None -> stale := true; "na"
+        | Some (r, ((im, fi'), l')) ->
+          let (im2, _) = VolFsInfo.vol32_flush_fs_info (Abs.parse_geom im) im fi' in
+          cur := im2; stale := false;
+          res_tag (fun o -> match o with
+                            | None -> "exists"
+                            | Some (p, q) -> Printf.sprintf "ok %s %s" (string_of_n p) (string_of_n q)) r
+          ^ " chain=" ^ String.concat "," (Stdlib.List.map string_of_n l')
+          ^ " fi=" ^ opt_s fi'.Table.fi_free ^ "," ^ opt_s fi'.Table.fi_next ^ "," ^ (if fi'.Table.fi_dirty then "dirty" else "clean")
+          ^ " " ^ digest ())
+     | r -> "nomount " ^ res_tag (fun _ -> "ok") r)
+  | ["r32remove"; name] ->
+    (match Vol32Root.vol32_root_remove upper oem !cur (name_of_hex name) with
+     | None -> stale := true; "na"
+     | Some (r, im) -> cur := im; pre (res_tag (fun _ -> "ok") r ^ " " ^ digest ()))
+  | ["r32rename"; src; dst] ->
+    (match Vol32Root.vol32_root_rename upper oem !cur (name_of_hex src) (name_of_hex dst) with
      | None -> stale := true; "na"
      | Some (r, im) -> cur := im; pre (res_tag (fun _ -> "ok") r ^ " " ^ digest ()))
   | ["fi"; fr; nx] ->
